@@ -107,7 +107,9 @@ fn handle_client(stream: TcpStream, dbs: Arc<Databases>) {
                         break;
                     }
                     _ => match process_request(&buf, &dbs, &mut client) {
-                        Response::Error { msg } => {
+                        // A refused versioned write is a refusal like any other (http and ws already
+                        // answer it with its message): it must not be acknowledged with `ok`
+                        Response::Error { msg } | Response::VersionError { msg, .. } => {
                             log::debug!("Error: {}", msg);
                             match client.sender.try_send(format!("error {} \n", msg)) {
                                 Ok(_) => (),
